@@ -190,7 +190,8 @@ def run(ctx):
         return replay(ctx, kd)
     # (component, family, depth, arch compression mode, compress flag)
     if ctx.quick:
-        plan = [("dyn", "sizes", 5, "none", False), ("inst", "sizes", 5, "none", False), ("arch", "sizes", 4, "none", False),
+        plan = [("dyn", "sizes", 4, "none", False), ("dyn", "sizes3", 5, "none", False), ("inst", "sizes", 5, "none", False),
+                ("arch", "sizes", 4, "none", False),
                 ("arch", "sizes3", 5, "none", False), ("inst", "classes", 4, "none", False), ("dyn", "classes3", 4, "none", False), ("arch", "classes3", 4, "none", True),
                 ("arch", "sizes3", 4, "zlib", True), ("arch", "sizes3", 4, "lz4", True), ("inst", "sizes3", 4, "none", True)]
         nrand, rlen = 150, 100
